@@ -9,6 +9,8 @@ structure Checks where
   perPiece : Nat
   /-- an `assert!(end_ptr == final_ptr, …)` after the copy pass, before `set_len` -/
   finalEq : Bool
+  /-- number of times the body evaluates `sep.as_ref()` (0 for functions without a separator) -/
+  sepEvals : Nat := 0
   /-- `file:line` of the function -/
   loc : String
   deriving Repr, DecidableEq
